@@ -57,7 +57,26 @@ type memCase struct {
 	// SharedBuf: the initial blocks of a Bytes memory are windows of one larger buffer (slices
 	// with spare capacity), not separately allocated slices
 	SharedBuf bool `json:"shared_buf,omitempty"`
+	// Retain (overlay): the base layer is a Memory that keeps ONE block list and hands it out
+	// on every Blocks() call (the list has spare capacity), as an implementation outside this
+	// package may — the layered memory must not modify what its base returns
+	Retain bool `json:"retaining_base,omitempty"`
 }
+
+// retainingBase wraps a memory that is only read: Blocks() always returns the same map.
+type retainingBase struct {
+	memory.Memory
+	blocks interval.Map[model.Addr]
+}
+
+func newRetainingBase(m memory.Memory) *retainingBase {
+	src := m.Blocks().Intervals()
+	ivs := make([]interval.Interval[model.Addr], len(src), len(src)+8)
+	copy(ivs, src)
+	return &retainingBase{Memory: m, blocks: interval.NewMap(ivs...)}
+}
+
+func (b *retainingBase) Blocks() interval.Map[model.Addr] { return b.blocks }
 
 // memTopEndRun: the last MaxW bytes of the address space, [2^64-w, 2^64).
 func memTopEndRun(c memCase) *eng.Fail {
@@ -557,6 +576,9 @@ func memRun(c memCase) (*eng.Fail, int) {
 		}
 		for a, cl := range baseMdl {
 			mdl[a] = cl
+		}
+		if c.Retain {
+			base = newRetainingBase(base)
 		}
 		mem = memory.NewOverlay(base, memory.NewSparse())
 	}
